@@ -271,3 +271,41 @@ def real_objective(case, free_model_params=False):
         warnings.simplefilter("always")
         pen, o = objective(build(case, free_model_params=free_model_params))
     return pen, o, w
+
+
+# ----------------------------------------------------------------------------------------------- exhaustive core (spec/ObjectiveEnum.tla)
+def from_tlc_case(tc):
+    """A single-group case in TLC's format -> harness case."""
+    link = {"true": True, "false": False, "auto": None}[tc["link"]]
+
+    def ivs(x):
+        return [[("inf" if b >= INF else ("-inf" if b <= -INF else b)) for b in iv] for iv in x]
+    ds = []
+    for d in tc["datasets"]:
+        ds.append({"label": d["label"], "group": "default", "axis": d["axis"], "maxis": [], "scale": d["scale"], "data": d["data"], "weight": d["weight"],
+                   "mcs": d["mcs"], "gmcs": [], "transposed": False})
+    return {"groups": [{"label": "default", "link": link, "residual_function": tc["residual_function"], "datasets": [d["label"] for d in ds], "has_global": False}],
+            "datasets": ds,
+            "relations": [{"source": r["source"], "target": r["target"], "param": r["param"], "ivs": ivs(r["ivs"]), "single": False} for r in tc["relations"]],
+            "constraints": [{"type": c["type"], "target": c["target"], "ivs": ivs(c["ivs"]), "single": False} for c in tc["constraints"]],
+            "penalties": [{"source": p_["source"], "sivs": ivs(p_["sivs"]), "target": p_["target"], "tivs": ivs(p_["tivs"]), "param": p_["param"], "weight": p_["weight"]}
+                          for p_ in tc["penalties"]],
+            "weights": []}
+
+
+def enum_core(workers=16, timeout=3000):
+    """Model-check spec/ObjectiveEnum.tla exhaustively and emit every configuration with its exact expectation.
+    Returns (tlc result of the checking run, list of (case, [expectation]))."""
+    base = "SPECIFICATION Spec\nCHECK_DEADLOCK FALSE\nCONSTANTS\n"
+    res = run_tlc("ObjectiveEnum", base + "  LinkSet <- AllLinks\n  Ax1Set <- Axes\nINVARIANT InvAll\n", workers=workers, timeout=timeout, coverage=False)   # -coverage exhausts the heap on the deep recursive operators
+    shards = [(l, a) for l in ("true", "false", "auto") for a in ("AxA", "AxB", "AxC")]
+
+    def one(sh):
+        l, a = sh
+        em = run_tlc("ObjectiveEnum", base + f'  LinkSet = {{"{l}"}}\n  Ax1Set <- {a}\nCONSTRAINT Emit\n', workers=1, timeout=timeout, coverage=False)
+        return printed_json(em["stdout"], "ENUM")
+
+    with ThreadPoolExecutor(max_workers=9) as ex:
+        outs = list(ex.map(one, shards))
+    items = [x for o in outs for x in o]
+    return res, [(from_tlc_case(x["case"]), [x["exp"]]) for x in items]
